@@ -386,7 +386,8 @@ async fn run_impl(app: &AppT, reqs: &[ReqT]) -> Vec<String> {
             outs.push("bad-request".to_owned());
             continue;
         };
-        if r.target.parse::<actix_web::http::Uri>().is_err() {
+        // only origin-form targets (a path, optionally a query) are in the protocol
+        if !r.target.starts_with('/') || r.target.parse::<actix_web::http::Uri>().is_err() {
             outs.push("bad-request".to_owned());
             continue;
         }
@@ -700,6 +701,10 @@ fn run(line: &str) -> CaseResult {
     let mut tags: Vec<String> = Vec::new();
     let mut nontrivial = false;
     for (r, o) in reqs.iter().zip(&outs) {
+        if o == "bad-request" {
+            tags.push("bad-request".into());
+            continue;
+        }
         let want = reference::route(&app, r);
         let Some(got) = parse_out(o) else {
             fails.push(("unparsable-output".into(), format!("{} {} -> {o}", r.method, r.target)));
@@ -725,6 +730,7 @@ fn run(line: &str) -> CaseResult {
         // generator ground truth: the path was built from the route to handler `h` with these values;
         // it must be served by that handler with exactly these values, or by a service registered earlier
         if let Some((h, ps)) = r.exp.as_ref().filter(|(h, _)| guards_to(&app.children, *h).is_some_and(|gs| gs.iter().all(|g| reference::holds(g, r)))) {
+            tags.push("ground-truth-checked".into());
             if got.who == format!("h{h}") {
                 if got.params != *ps {
                     fails.push(("params-exact".into(), format!("{what}: built from values {:?}, handler saw {:?}", ps, got.params)));
